@@ -191,5 +191,19 @@ PROPS["C20"] = {
     "technique": "runtime monitoring: bounded-progress monitor + wire monitor of in-flight responses under generated traffic states and failpoint delays",
 }
 
+PROPS["C04"] = {
+    "level": "exploration",
+    "engines": [
+        {"bin": "hv", "args": ["c04"]},
+        {"bin": "hvt", "args": ["c04"]},
+    ],
+    "min": {"quick": {"apps": 1000, "answers_matching_reference": 20_000, "requests_matching_several_routes": 3000, "websocket_upgrades": 1000, "expected_host_route": 1000, "expected_default_route": 3000, "expected_no_route": 1000},
+            "thorough": {"apps": 3800}},
+    "assumptions": [],
+    "level_text": "Generated applications are run as real Apps on loopback (threaded and tokio); every request's answering handler (identity in the response body, or on the raw stream for WebSocket upgrades) is compared with a reference router, and each request is repeated with a different method, query and extra headers, which must not change the choice.",
+    "level_note": "Trusted: the reference router in hvcommon::routelab using the repository's wildcard_match as predicate (the matcher itself is C05's subject).",
+    "technique": "runtime monitoring: reference-model oracle (router) over generated configurations and requests; metamorphic invariance check",
+}
+
 # properties without a check, with the reason (kept current)
 NOT_CLAIMED = {}
